@@ -349,3 +349,46 @@ Theorem C15_call_view_first_answer : forall tbl vs,
   outcome_view (gen_call_view (call_of tbl) vs) = first_answer tbl vs.
 Proof. exact call_view_first_answer. Qed.
 Print Assumptions C15_call_view_first_answer.
+
+(* ---- round 6 ---- *)
+(* a commit on the live registry that fails midway: the view actions [acts] executed before the action that
+   raised stay in force; each of them is the whole register program (registration AND cache clear in ONE
+   action), so after any history -- warm cache or not -- every lookup that starts afterwards sees exactly the
+   registrations of the executed actions.  (A clear scheduled as a separate, later action of the commit would
+   be dropped by the failure: that program is [RegisterAdapter] alone, refuted by C15_lookup_fresh_NoClear_refuted.) *)
+Theorem C15_partial_commit_fresh : forall sro R0 hs acts k tr2,
+  reinit_idle sro KeyFull lookup_prog register_prog init_prog hs (init R0) = true ->
+  let st0 := hexec sro KeyFull lookup_prog register_prog init_prog hs (init R0) in
+  let st1 := exec sro KeyFull lookup_prog register_prog (commit_trace (ntid st0) acts) st0 in
+  let st2 := exec sro KeyFull lookup_prog register_prog (SpawnLookup k :: tr2) st1 in
+  quietb st0 = true ->
+  reg_free sro KeyFull lookup_prog register_prog st1 (SpawnLookup k :: tr2) = true ->
+  exists t, threads st2 (ntid st1) = Some t /\ tkind t = KLookup /\ tkey t = k /\
+            (cont t = [] -> tres t = Some (lookup_all sro (commit_R acts (R st0)) k)).
+Proof. exact partial_commit_fresh. Qed.
+Print Assumptions C15_partial_commit_fresh.
+
+(* every theorem takes the resolution orders as a fixed oracle; the regenerated fact says nothing in src/pyramid
+   rewrites them, and the refutation says why that matters: rewrite the resolution order of an interface that
+   sits in a warm cache key (no clear) and the next lookup is stale *)
+Theorem C15_facts_spec_orders_immutable : spec_orders_immutable = true.
+Proof. exact facts_spec_orders_immutable. Qed.
+Print Assumptions C15_facts_spec_orders_immutable.
+
+Theorem C15_sro_change_refuted : ~ sro_change_claim (std_lookup Local true) (std_register Swap).
+Proof. exact sro_change_refuted. Qed.
+Print Assumptions C15_sro_change_refuted.
+
+(* ordinary and exception-view lookups (request.invoke_exception_view: request_iface.combined) of a request object
+   after any chain of dispatches: the key is the one of a brand-new request for the last URL *)
+Theorem C15_redispatch_lookup_fresh : forall sro R0 hs cl cx nm ms m tr2,
+  reinit_idle sro KeyFull lookup_prog register_prog init_prog hs (init R0) = true ->
+  let st1 := hexec sro KeyFull lookup_prog register_prog init_prog hs (init R0) in
+  let k := (cl, lookup_iface cl (dispatch_last router_resets_iface router_sets_route_iface (ms ++ [m])), cx, nm) in
+  let st2 := exec sro KeyFull lookup_prog register_prog (SpawnLookup k :: tr2) st1 in
+  quietb st1 = true ->
+  reg_free sro KeyFull lookup_prog register_prog st1 (SpawnLookup k :: tr2) = true ->
+  exists t, threads st2 (ntid st1) = Some t /\ tkind t = KLookup /\
+            (cont t = [] -> tres t = Some (lookup_all sro (R st1) (cl, lookup_iface cl (fresh_iface m), cx, nm))).
+Proof. exact redispatch_lookup_fresh. Qed.
+Print Assumptions C15_redispatch_lookup_fresh.
